@@ -6,7 +6,7 @@
    prime, generator of the dyadic subgroup); they appear as the named premise
    dyadic_sound resp. are decided by correspondence (structured exponents in every block). *)
 From Coq Require Import ZArith List.
-From GoIpa Require Import Model.Zq Model.Alg Model.SqrtChain Model.FpSqrt Model.Banderwagon Proofs.SqrtProofs.
+From GoIpa Require Import Model.Zq Model.Alg Model.SqrtChain Model.FpSqrt Model.Banderwagon Proofs.AlgLaws Proofs.SqrtProofs.
 Open Scope Z_scope.
 
 (* p - 1 = 2^32 Q with Q odd; the chain's exponents are exactly Q and (Q+1)/2 *)
@@ -40,6 +40,15 @@ Theorem C17_get_point_from_x : forall x b,
         px = x /\ (zval py <> 0 -> zq_lex_largest py = b)).
 Proof. exact get_point_from_x_spec. Qed.
 Print Assumptions C17_get_point_from_x.
+
+(* ... and the recovered point lies on the curve (sound square root, invertible denominator) *)
+Theorem C17_recovered_point_on_curve : forall (x y : Fp) b,
+  dyadic_sound ->
+  Proofs.AlgLaws.invertible fpo (zq_sub (zq_mul (zq_mul x x) bw_d) zq_one) ->
+  compute_y x b = Some y ->
+  zq_add (zq_mul bw_a (zq_mul x x)) (zq_mul y y) = zq_add zq_one (zq_mul (zq_mul bw_d (zq_mul x x)) (zq_mul y y)).
+Proof. exact compute_y_on_curve. Qed.
+Print Assumptions C17_recovered_point_on_curve.
 
 (* the 256 keys of the dlog look-up table are pairwise distinct (finite, by computation) *)
 Theorem C17_lut_keys_distinct : length lut_keys = 256%nat /\ all_distinct lut_keys = true.
